@@ -4,3 +4,6 @@ open GrVerif.Props.C05
 #print axioms every_opcode_keeps_ranges
 #print axioms gc_keeps_ranges
 #print axioms cinfo_count_and_bases
+#print axioms pipeline_assoc_in_range
+#print axioms cinfo_values_are_slot_indices
+#print axioms associateChars_keeps_slot_ranges
